@@ -170,11 +170,8 @@ class Case:
             out.add("C04-F23-abstract-type-condition")
         if re.search(r"(?<![A-Za-z0-9_])_+[0-9]", self.sc.sdl + (self.sc.queries or "")):
             out.add("C04-F18-underscore-digit-name")
-        from graphql import GraphQLEnumType
-
-        if any(S.enum_reserved_value(v) for t in self.schema.type_map.values() if isinstance(t, GraphQLEnumType)
-               and not t.name.startswith("__") for v in t.values):
-            out.add("C04-F31-enum-reserved-value-name")
+        if any("ExtractOperationsPlugin" in p for p in self.sc.config.get("plugins", [])):
+            out.add("C04-F32-plugin-written-module")
         return out
 
     def replay(self, **extra) -> dict:
@@ -320,7 +317,7 @@ CORPUS = [
      "enum OrderBy { type match case _ class None } input G { o: OrderBy = class } "
      "input F { o: OrderBy = type l: [OrderBy!] = [match, None] g: G = {o: case} gs: [G!] = [{o: _}] } "
      "type Query { sorted(o: OrderBy = match, f: F = {o: type}): Int }"),
-    ("F31", "query Q { e }", {}, "enum E { OK mro _name_ } input I { e: E = mro } type Query { e(i: I): E }"),
+    ("fixed-F31", "query Q { e }", {}, "enum E { OK mro _name_ } input I { e: E = mro } type Query { e(i: I): E }"),
 ]
 
 
@@ -400,10 +397,15 @@ def build_cases(ctx) -> list:
                 continue
             cases.append((sc, stream))
             made += 1
+    # every written file x every source of file names (deterministic enumeration; the base client variant and the
+    # control group depend on the seed; thorough: several variants)
+    for v in range(1 if not T else 4):
+        for sc in S.name_collisions(random.Random(f"c04-coll-{ctx.seed}-{v}"), controls=16 if not T else 40):
+            cases.append((sc, "name_collisions"))
     out = []
     for i, (sc, stream) in enumerate(cases):
         # the first main cases take the all-defaults point, every other case a random point of the option product
-        opts = S.sample_options(rng, default_bias=1.0 if (stream == "main" and i < 6) else 0.55)
+        opts = S.sample_options(rng, default_bias=1.0 if ((stream == "main" and i < 6) or stream == "name_collisions") else 0.55)
         sc2 = S.apply_options(sc, opts) if sc.queries is not None else apply_custom_only(sc, opts)
         out.append(Case0(sc2, stream))
     return out
@@ -559,8 +561,8 @@ def judge(case: Case, g, ld) -> dict:
 SYMPTOMS = {
     "C04-F2-untyped-inline-fragment": lambda k, d: k == "generation-crash" and "AttributeError" in d and "NoneType" in d,
     "C04-F23-abstract-type-condition": lambda k, d: k == "generation-crash" and "ParsingError" in d and "not found in type" in d,
-    "C04-F31-enum-reserved-value-name": lambda k, d: (k == "import-failed" and ("enum" in d.lower() or "_order_" in d or "_ignore_" in d))
-                                        or (k == "unresolved-reference" and ("has no member for value" in d or "type=enum" in d)),
+    "C04-F32-plugin-written-module": lambda k, d: (k == "reported-files" and "operations.py" in d)
+                                     or (k == "import-failed" and ".operations'" in d) or (k == "modules-listed" and "operations" in d),
     "C04-F18-underscore-digit-name": lambda k, d: (k == "generation-crash" and "InvalidInput" in d) or (k == "import-failed" and "SyntaxError" in d),
 }
 
@@ -684,10 +686,16 @@ def account(ctx, c: Case, g, ld, m, v, to_shrink, seen_classes):
     # ---- K3 ----
     problems = list(v["problems"])
     # ---- K1 ----
-    k1 = k1_compare(c, g, ld, m, v)
+    # the layout model has no plugins: cases with a plugin that writes its own module are K3 only
+    k1 = k1_compare(c, g, ld, m, v) if not c.sc.config.get("plugins") else []
+    if c.sc.config.get("plugins"):
+        run.dist("k1", "skipped:plugin-case")
+    if c.stream == "name_collisions":
+        run.dist("collision_pairs", f"{c.sc.notes['group']}:{c.sc.notes['source']}", 1)
+        run.dist("collision_targets", f"{c.sc.notes['group']}:{c.sc.notes['target']}", 1)
     for p in k1:
         run.dist("k1", p[0])
-    if not k1:
+    if not k1 and not c.sc.config.get("plugins"):
         run.dist("k1", "agree")
     handled_by_class = set()
     for kind, detail in problems:
